@@ -511,3 +511,4 @@ theorem listSplice_ok {σ : State} {xs vals : List SVal} (lo : Nat) (hx : ListOK
   ListOK.append (ListOK.append (hx.take _) hv) (hx.drop _)
 
 end Seed
+
